@@ -67,6 +67,53 @@ Proof.
   exists r2, l2. split; [reflexivity|]. split; [exact O2|exact E].
 Qed.
 
+(* ---- with EmptyStatements as well: blank lines and comment-only lines ---- *)
+From Sylt Require Import Resolve.Empties Resolve.EmptiesProofs.
+
+Definition layout_nf (ast : past) : past := drop_empties (strip_parens ast).
+
+Definition same_modulo_layout (a1 a2 : past) : Prop := mp_ast pe (layout_nf a2) = mp_ast pe (layout_nf a1).
+
+Lemma resolve_layout_nf fl ast : resolve fl (layout_nf ast) = resolve fl ast.
+Proof. unfold layout_nf. rewrite resolve_drops_empties. apply resolve_erases_parens. Qed.
+
+Theorem layout_resolve fl a1 a2 :
+  same_modulo_layout a1 a2 ->
+  use_names_separated (layout_nf a1) -> use_names_separated (layout_nf a2) ->
+  match resolve fl a1, resolve fl a2 with
+  | Resolver.Ok r1, Resolver.Ok r2 => same_modulo_spans r1 r2
+  | Resolver.Err es1, Resolver.Err es2 => map e_kind es2 = map e_kind es1
+  | Resolver.Panic s1, Resolver.Panic s2 => s1 = s2
+  | Resolver.OutOfFuel, Resolver.OutOfFuel => True
+  | _, _ => False
+  end.
+Proof.
+  intros H S1 S2. rewrite <- (resolve_layout_nf fl a1), <- (resolve_layout_nf fl a2).
+  pose proof (resolve_pe fl _ S1) as N1. pose proof (resolve_pe fl _ S2) as N2.
+  unfold same_modulo_layout in H. rewrite H in N2. unfold res_nat in *.
+  destruct (resolve fl (layout_nf a1)) as [r1|es1|p1|], (resolve fl (layout_nf a2)) as [r2|es2|p2|],
+           (resolve fl (mp_ast pe (layout_nf a1))) as [r|es|p|]; try contradiction; auto; try congruence.
+  subst r. unfold same_modulo_spans.
+  rewrite (mapped_same_modulo_spans pe pe_line r1), (mapped_same_modulo_spans pe pe_line r2), N2. reflexivity.
+Qed.
+
+Theorem layout_same_lua fl tgt fuel_tc fuel req a1 a2 r1 l1 :
+  same_modulo_layout a1 a2 ->
+  use_names_separated (layout_nf a1) -> use_names_separated (layout_nf a2) ->
+  resolve fl a1 = Resolver.Ok r1 ->
+  init_order tgt (r_stmts r1) = OOk l1 ->
+  exists r2 l2, resolve fl a2 = Resolver.Ok r2 /\ init_order tgt (r_stmts r2) = OOk l2
+    /\ forall out1 out2,
+         compile_after_order (Emit.backend fuel req) fuel_tc (mkResolved (r_vars r1) l1) = COk out1 ->
+         compile_after_order (Emit.backend fuel req) fuel_tc (mkResolved (r_vars r2) l2) = COk out2 ->
+         out1 = out2.
+Proof.
+  intros H S1 S2 R1 O1. pose proof (layout_resolve fl a1 a2 H S1 S2) as P. rewrite R1 in P.
+  destruct (resolve fl a2) as [r2| | |]; try contradiction.
+  destruct (spans_same_lua tgt fuel_tc fuel req r1 r2 l1 P O1) as (l2 & O2 & _ & E).
+  exists r2, l2. split; [reflexivity|]. split; [exact O2|exact E].
+Qed.
+
 (* the side condition, computably *)
 Definition use_names_separatedb (ast : past) : bool :=
   let l := use_spans ast in
